@@ -76,6 +76,11 @@ def evaluate(sid, all_props, run_tests):
     finally:
         shutil.rmtree(tmp, ignore_errors=True)
         # evidence files were rewritten by runs against the scratch copy: they are restored by the caller
+    if not run_tests:
+        # keep what an earlier full evaluation established about the test suite
+        for k in ("tests_pass_with_change", "tests_summary"):
+            if k in meta.get("verification", {}):
+                res.setdefault(k, meta["verification"][k])
     meta["verification"] = res
     with open(meta_path, "w") as f:
         json.dump(meta, f, indent=1)
